@@ -10,7 +10,7 @@ from typing import Any, Callable, Dict, List, Optional, Sequence, Tuple
 
 from .boolean import Evaluator, Kind, NeedVar, ObjectModel, OutOfGrid, Unknown, World
 from .core import AnalysisError, src
-from .guards import (Event, GuardWalk, f_and, f_not, f_or, formula_of, role_rename, show,
+from .guards import (FALSE, Event, GuardWalk, f_and, f_not, f_or, formula_of, role_rename, show,
                      strip_iter, walk_function)
 from .index import Func, RepoIndex
 
@@ -89,6 +89,8 @@ class FnModel:
                 # a conditional value that only shows after expansion (a helper returning a
                 # tuple of conditional expressions) is split into guarded alternatives
                 for v_alt, g_alt in self._alts(val, g):
+                    if g_alt == FALSE:
+                        continue          # an alternative on a path that cannot be taken
                     self.effects.append(Effect(e.kind, src(tgt),
                                                src(v_alt) if v_alt is not None else '',
                                                g_alt, e, v_alt, tgt))
